@@ -51,7 +51,11 @@ RULE = (
     "32-day kernel edge / grid phase). total: _differentialEquation at every (coefficient file x (degree,order) x "
     "altitude x latitude x longitude x epoch) and every (third-body subset x SRP x GR x altitude x Sun-geometry class x "
     "epoch) against point mass + geopotential gradient + direct third-body + cannonball SRP x visible fraction + "
-    "Schwarzschild term, each present exactly when configured; term: difference of two evaluations that differ in one "
+    "Schwarzschild term, each present exactly when configured; no_field: the same (third-body subset x SRP x GR x "
+    "altitude x Sun-geometry class) lattice with a geopotential of degree/order (0,0), (1,0), (1,1) - no non-central term, so "
+    "the derivative must be point mass + exactly the configured perturbations (also: nothing configured = pure two-body) - "
+    "at 3 epochs (seeded day, 4-day series boundary, off-grid) x all 5 altitudes, total and term subchecks with their own "
+    "signatures; term: difference of two evaluations that differ in one "
     "switch equals the oracle term; batch: (6,K) layouts with every state in every column equal the K=1 result, and every "
     "ordered K-tuple with repeats (K = 2..4) of three states of different shadow class / altitude + every permutation of "
     "four (first and last column alike with a different one between them, descending, doubled), every column against "
@@ -120,6 +124,8 @@ ALT_RADII = [fr.R_EARTH + 200.0, fr.R_EARTH + 800.0, fr.R_EARTH + 20200.0, fr.R_
 LATS = [-90.0, -30.0, 0.0, 60.0, 90.0]
 LONS = [0.0, 120.0, -60.0]
 LIB_BODY = {"sun": Sun, "moon": Moon, "jupiter": Jupiter, "saturn": Saturn, "venus": Venus}
+LOW_DEGREE_ORDER = [(0, 0), (1, 0), (1, 1)]  # geopotential truncations without any non-central term (n >= 2 needed)
+LOW_EPOCHS = ("seed_day", "edge4_at", "off_grid")  # epochs of the no-field perturbation lattice (all 5 altitudes each)
 GEOMS = ["sunside", "perpendicular", "far_lit", "edge_lit", "pen_0.9", "pen_0.5", "pen_0.1", "edge_dark", "umbra_axis"]
 SAT_RATIOS = [0.02, 0.5, 0.004]
 JD_EOP_LO = 2456658.5  # 2014-01-01 00:00 (first EOP row)
@@ -490,6 +496,14 @@ def items(tier, seed):
             if _is_cal(e) and tier != "thorough" and ai not in CAL_ALT_QUICK:
                 continue
             out.append(("perturb", list(e), ai, ei, subsets))
+    # no gravity field at all (degree 0 / 1: the harmonic sum is empty) crossed with every perturbation switch: the
+    # configurations in which a "nothing but two-body motion" shortcut would be taken must still carry third bodies, SRP, GR
+    for ei, e in enumerate(ep):
+        if e[0] not in LOW_EPOCHS:
+            continue
+        for ai in range(len(ALT_RADII)):
+            for nm_low in LOW_DEGREE_ORDER:
+                out.append(("perturb", list(e), ai, ei, subsets, list(nm_low)))
     ks = [1, 2, 3, 4] + ([5, 8] if tier == "thorough" else [])
     cal_batch = [by[lab] for lab in _cal_geo_labels(tier, seed)[:2]]
     for k in ks:
@@ -550,6 +564,12 @@ def bounds(tier, seed):
             "starts": [[lab, st.isoformat()] for lab, st, _ in _factory_starts(seed)],
             "configurations": [list(c[:3]) + ["+".join(c[3]) or "none", c[4], c[5], list(c[6]), c[7]] for c in FACTORY_CFG],
             "states": [[g, ALT_RADII[ai]] for g, ai in FACTORY_STATES],
+        },
+        "no_field_lattice": {
+            "degree_order": [list(x) for x in LOW_DEGREE_ORDER],
+            "epochs": list(LOW_EPOCHS),
+            "radii_km": ALT_RADII,
+            "crossed_with": "every third-body subset x SRP x GR x Sun-geometry class of the perturbation lattice",
         },
         "third_body_subsets": len(_subsets(tier)),
         "srp": [False, True],
@@ -678,14 +698,20 @@ def _geometry_state(geom, radius, sun, k):
 
 
 def _run_perturb(res, item):
-    _, e, ai, ei, subsets = item
+    _, e, ai, ei, subsets = item[:5]
+    low = [int(x) for x in item[5]] if len(item) > 5 else None
     label, iso, t, on_grid = e
     start = datetime.fromisoformat(iso)
     dt = start + timedelta(seconds=t)
     jd = _ref_jd(dt)
     radius = ALT_RADII[ai]
     model = MODELS[ei % 4]
-    degree, order = [(4, 4), (2, 0), (8, 5), (3, 1)][(ei + ai) % 4]
+    degree, order = low if low is not None else [(4, 4), (2, 0), (8, 5), (3, 1)][(ei + ai) % 4]
+    sfx = "/no_field" if low is not None else ""  # own signatures: degree < 2, the force is two-body + perturbations only
+
+    def mk(bl):
+        return ("perturb", e, ai, ei, bl) + ((low,) if low is not None else ())
+
     sun = fr.body_position(jd, "sun")
     subsets = [list(s) for s in subsets]
     for gi, geom in enumerate(GEOMS):
@@ -706,7 +732,7 @@ def _run_perturb(res, item):
                 for gr in (0, 1):
                     key = (tuple(bodies), srp, gr)
                     case = dict(base_case, bodies="+".join(bodies) or "none", srp=bool(srp), gr=bool(gr))
-                    d = _deriv(res, "total/perturbations", case, ("perturb", e, ai, ei, [bodies]),
+                    d = _deriv(res, "total/perturbations", case, mk([bodies]),
                                (start, model, degree, order, bodies, srp, gr, ratio), t, state.copy())
                     if d is None:
                         continue
@@ -719,12 +745,12 @@ def _run_perturb(res, item):
                         "total/perturbations",
                         case,
                         ok,
-                        nontrivial=bool(bodies) or bool(srp) or bool(gr) or (degree, order) != (2, 0),
-                        signature=f"C13/total/perturbations/{'offgrid' if not on_grid else 'grid'}",
+                        nontrivial=bool(bodies) or bool(srp) or bool(gr) or (degree >= 2 and (degree, order) != (2, 0)),
+                        signature=f"C13/total/perturbations/{'offgrid' if not on_grid else 'grid'}{sfx}",
                         observed={"a": d[3:], "err": err, "tol": tol},
                         expected=want,
                         outcome=("agree" if ok else "differ") + "/" + got_class,
-                        item=("perturb", e, ai, ei, [bodies]),
+                        item=mk([bodies]),
                     )
                     res.observe(d)
         # each term present exactly when configured: difference of two evaluations = oracle term
@@ -744,11 +770,11 @@ def _run_perturb(res, item):
                 case,
                 bool(err <= tol),
                 nontrivial=_norm(want) > 100 * tol,
-                signature=f"C13/term/{name}",
+                signature=f"C13/term/{name}{sfx}",
                 observed={"difference": d, "err": err, "tol": tol},
                 expected=want,
                 outcome="agree" if err <= tol else "differ",
-                item=("perturb", e, ai, ei, [list(with_key[0]), list(without_key[0])]),
+                item=mk([list(with_key[0]), list(without_key[0])]),
             )
 
         for bodies in subsets:
